@@ -138,9 +138,9 @@ func genLatency(t *Tape, latMax int) time.Duration {
 
 func (p *RevProfile) genFault(t *Tape, sc *RevScenario, kind string) Fault {
 	// candidate network faults
-	cands := []int{FConnErr, FStall, FStatus, FRedirect, FEmpty, FTruncate, FBodyErr, FBodyStall, FGarbage, FLyingCL}
+	cands := []int{FConnErr, FStall, FStatus, FRedirect, FEmpty, FTruncate, FBodyErr, FBodyStall, FGarbage, FLyingCL, FCloseErr}
 	if p.TimeInvariant {
-		cands = []int{FConnErr, FStatus, FRedirect, FEmpty, FTruncate, FBodyErr, FGarbage, FLyingCL}
+		cands = []int{FConnErr, FStatus, FRedirect, FEmpty, FTruncate, FBodyErr, FGarbage, FLyingCL, FCloseErr}
 	}
 	var en []int
 	for _, c := range cands {
@@ -360,7 +360,7 @@ func GenRevScenario(t *Tape, p *RevProfile) *RevScenario {
 	sc := &RevScenario{Prof: p}
 	sc.Config = t.Weighted(p.ConfigW...)
 	// swarm masks: a random half of the alphabets
-	sc.netMask = uint32(t.Choose(1 << 15))
+	sc.netMask = uint32(t.Choose(1 << 16))
 	sc.byzMask = uint32(t.Choose(1 << 8))
 	if sc.Config == 0 || sc.Config == 2 {
 		sc.netMask = 0
@@ -514,7 +514,7 @@ func (p *RevProfile) cloneWorld(t *Tape, sc *RevScenario, o *World, k int) *Worl
 		for _, oc := range ocp.CRL {
 			c := *oc
 			s := &c
-			s.XBase, s.XDelta = nil, nil
+			s.XBase, s.XDelta, s.XBase2 = nil, nil, nil
 			s.CacheSeed = 0
 			s.BaseNum = oc.BaseNum + int64(3*k) // a newer publication
 			s.DeltaFault = append([]Fault(nil), oc.DeltaFault...)
@@ -715,6 +715,9 @@ func (p *RevProfile) genWorld(t *Tape, sc *RevScenario, id int) *World {
 					s.DeltaLat = []time.Duration{genLatency(t, p.LatMax)}
 					s.Delta = p.genCRLPlan(t, sc, truth, false, true)
 				}
+			}
+			if faulty && s.URLKind == UNormal {
+				s.Second = t.Weighted(88, 6, 6)
 			}
 			if sc.Fetcher == FetchStub {
 				s.StubErr = faulty && t.Bool(p.PSrcFault/2)
